@@ -176,26 +176,37 @@ let run (path : string) =
       predfail ~case:!case ~step:!step ~pred:"holds_C08_lend" ~kf:"none" ~detail:("after_" ^ kind);
     if not (holds_C08_borrow !cfg obs) then
       predfail ~case:!case ~step:!step ~pred:"holds_C08_borrow" ~kf:"none" ~detail:("after_" ^ kind);
+    (* Side invariant (C08-F1 repaired): no position hangs on a lend position of another asset than its pair's asset in *)
+    L.iter (fun (j, _) ->
+        if mismatched_lend !cfg obs j then
+          predfail ~case:!case ~step:!step ~pred:"holds_C08_collateral_asset" ~kf:"none" ~detail:(kind ^ "_borrow=" ^ zs j)) obs.borrows;
     if res = "ok" then begin
-      let ltv_check j =
-        bump "ltv_checked";
-        if kf_C08_1 !cfg obs j then bump "ltv_checked:mismatched_lend";
-        if not (holds_C08_ltv !cfg obs j) then begin
-          let kf = if kf_C08_1 !cfg obs j then "kf_C08_1" else "none" in
-          predfail ~case:!case ~step:!step ~pred:"holds_C08_ltv" ~kf ~detail:(kind ^ "_borrow=" ^ zs j)
-        end in
+      let ltv_check pred name j =
+        bump ("ltv_checked:" ^ name);
+        if not (pred !cfg obs j) then
+          predfail ~case:!case ~step:!step ~pred:name ~kf:"none" ~detail:(kind ^ "_borrow=" ^ zs j) in
+      let pool_check pid amt =
+        if not (holds_C08_pool !cfg pre pid amt) then
+          predfail ~case:!case ~step:!step ~pred:"holds_C08_pool" ~kf:"none" ~detail:kind in
       (match o with
        | OBorrow (u, _, pid, _, _, _, _, aout, _, _) | OBorrowAlt (u, _, _, _, _, pid, _, _, aout, _, _, _, _) ->
-         (match borrow_id_for_pair obs u pid with
-          | Some j -> ltv_check j
-          | None -> predfail ~case:!case ~step:!step ~pred:"holds_C08_ltv" ~kf:"none" ~detail:"no_position_after_borrow");
-         if not (holds_C08_pool !cfg pre pid aout) then
-           predfail ~case:!case ~step:!step ~pred:"holds_C08_pool" ~kf:"none" ~detail:kind
+         let alt = (match o with OBorrowAlt _ -> true | _ -> false) in
+         if has_borrow_for_pair pre u pid then begin
+           (* DepositDraw on the existing position of this pair: the draw rule; the pool is checked at the release *)
+           (match borrow_id_for_pair pre u pid with
+            | Some j -> ltv_check holds_C08_ltv "holds_C08_ltv" j
+            | None -> predfail ~case:!case ~step:!step ~pred:"holds_C08_ltv" ~kf:"none" ~detail:"no_position_for_deposit_draw");
+           bump "pool_check:at_release_only"
+         end else begin
+           if obs.bctr = pre.bctr then
+             predfail ~case:!case ~step:!step ~pred:"holds_C08_ltv" ~kf:"none" ~detail:"no_position_after_borrow"
+           else ltv_check holds_C08_ltv_new "holds_C08_ltv_new" obs.bctr;
+           if alt then bump "pool_check:at_release_only" else pool_check pid aout
+         end
        | ODraw (_, j, _, amt, _) ->
-         ltv_check j;
+         ltv_check holds_C08_ltv "holds_C08_ltv" j;
          (match zget obs.borrows j with
-          | Some b -> if not (holds_C08_pool !cfg pre b.b_pair amt) then
-              predfail ~case:!case ~step:!step ~pred:"holds_C08_pool" ~kf:"none" ~detail:kind
+          | Some b -> pool_check b.b_pair amt
           | None -> ())
        | OWithdraw (_, lid, _, amt, _) ->
          if not (holds_C08_pledged pre obs lid amt) then
